@@ -217,6 +217,14 @@ func (c *Cache) addJarToCache(sessionID string, jar http.CookieJar) {
 
 // cachedCookieJar returns the CookieJar mapped to the sessionID
 func (c *Cache) cachedCookieJar(sessionID string) (jar http.CookieJar, err error) {
+	if sessionID == "" {
+		// A request without a session cookie has no session yet: there is nothing to
+		// restore, and caching a jar under the empty ID would take up one of the slots
+		// meant for real sessions.
+		return cookiejar.New(&cookiejar.Options{
+			PublicSuffixList: publicsuffix.List,
+		})
+	}
 	// lru.Cache is not safe for concurrent use (Get reorders its list), and the
 	// lookup and the insertion of a missing jar must be one atomic step.
 	c.mu.Lock()
